@@ -330,6 +330,17 @@ pub fn build_spelling(raw: &RawSpell, dim: &Dim) -> USpell {
         let r = pick_idx(raw.order, factors.len());
         factors.rotate_left(r);
     }
+    // one spelling in six writes one of its units twice with the same prefix (`km^3 km^-1` for km^2):
+    // powers of a repeated unit add up, whatever prefix or scale factor it carries
+    if !factors.is_empty() && (raw.order >> 9) % 6 == 0 {
+        let i = pick_idx(raw.order.rotate_left(5), factors.len());
+        let (w, p) = factors[i].clone();
+        let k = if (raw.order >> 12) & 1 == 0 { 1 } else { 2 };
+        if p + k != 0 {
+            factors[i] = (w.clone(), p + k);
+            factors.insert(i + 1, (w, -k));
+        }
+    }
     // one spelling in six carries a factor that cancels inside it, written with explicit exponents
     let noise = if (raw.order >> 4) % 6 == 0 { 1 + (raw.order >> 7) } else { 0 };
     USpell { factors, slash: raw.slash, star: raw.star, noise, starstar: (raw.order >> 2) % 5 == 0 }
